@@ -160,6 +160,7 @@ def tag_rules(F, rep, tag, gen, rule="R-TAG"):
 
 
 def run(ctx, rep):
+    balance.rule_count_addr(ctx, rep)  # the union reaches the count only through typed handles, never as "the word before the payload"
     balance.rule_release_retarget(ctx, rep)  # release-then-store through `&mut Handle` must store on unwinding exits too
     for tag, F, E in ctx.each():
         A = balance.analysis(tag, F, E)
